@@ -232,3 +232,48 @@ func H_C05_case() {
 	vAssert("type", ok)
 	vAssert("bound-by-exact-name", g.Name == "alice" && g.Age == age && g.ID == 5)
 }
+
+// H_C05_edge_names: names starting with a / z / A / Z bind like any other (first letter case-insensitive).
+func H_C05_edge_names() {
+	x := vInt32("x")
+	tm := map[string]reflect.Type{"ZEdgeNames": reflect.TypeOf(ZEdgeNames{})}
+	upper := vChoice("upper", 2) == 1
+	names := []string{"alpha", "zulu", "mid", "azz", "zaa", "b"}
+	if upper {
+		names = []string{"Alpha", "Zulu", "Mid", "Azz", "Zaa", "B"}
+	}
+	wire := refCat(refClassDef("ZEdgeNames", names), []byte{0x60}, refInt(x), refInt(2), refInt(3), refInt(4), refInt(5), refInt(6))
+	out, err := ToObject(wire, tm)
+	vAssert("decode-noerr", err == nil)
+	g, ok := out.(*ZEdgeNames)
+	vAssert("type", ok)
+	vAssert("all-bound", g.Alpha == x && g.Zulu == 2 && g.Mid == 3 && g.Azz == 4 && g.Zaa == 5 && g.B == 6)
+}
+
+// H_C05_reused_decoder: a decoder that has read one stream reads the next stream from that stream's own
+// definitions (index 0 again), not from what the earlier stream defined.
+func H_C05_reused_decoder() {
+	a, c := vInt32("a"), vInt64("c")
+	tm := map[string]reflect.Type{"ZTriple": reflect.TypeOf(ZTriple{}), "ZInner": reflect.TypeOf(ZInner{})}
+	first := refCat(refClassDef("ZInner", []string{"n", "s"}), []byte{0x60}, refInt(1), refStr("s"))
+	if vChoice("first", 2) == 1 {
+		first = refCat(refClassDef("ZTriple", []string{"c", "b", "a"}), []byte{0x60}, refLong(9), refStr("x"), refInt(8))
+	}
+	second := refCat(refClassDef("ZTriple", []string{"a", "b", "c"}), []byte{0x60}, refInt(a), refStr("bb"), refLong(c))
+	var got interface{}
+	var err error
+	if vChoice("api", 2) == 0 {
+		d := NewDecoder(nil, tm)
+		_, e1 := d.Decode(first)
+		vAssert("first-ok", e1 == nil)
+		got, err = d.Decode(second)
+	} else {
+		s := NewSerializer(tm, nil)
+		_, e1 := s.ToObject(first)
+		vAssert("first-ok", e1 == nil)
+		got, err = s.ToObject(second)
+	}
+	g, ok := got.(*ZTriple)
+	vAssert("second", err == nil && ok)
+	vAssert("fields", vAnd(g.A == a, vAnd(g.B == "bb", g.C == c)))
+}
